@@ -184,6 +184,6 @@ pub fn property() -> Property {
     level: "exploration",
     rule: "generated (input bytes incl. empty and up to 4 kB quick / 64 kB thorough, tag sets incl. 0 / 255 / adjacent tags up to 256 tags, 1-3 independently keyed servers, 2-6 repeated requests, verifiable or not). Oracle: unblind(blind(x)) is one point H for all requests; unblind(eval(blind(x), tag)) = eval(H, tag) for every request; finalize is identical across requests, differs across two tags, two inputs, two servers; blinded requests are pairwise different and differ from H; blinding scalars are not 0 or 1. Non-trivial: >= 2 requests for one (server, tag, input) with at least one cross comparison (every case); distinct by (input, tag set, tag, servers, requests, mode).",
     assumptions: vec!["blinding scalars and server keys come from OsRng; each case samples them", "unlinkability is only sampled through freshness of the blinded points"],
-    subs: vec![prop_sub("obliviousness", 3000, 60000, strat, oracle)],
+    subs: vec![prop_sub("obliviousness", 3000, 150000, strat, oracle)],
   }
 }
